@@ -271,6 +271,22 @@ def run(report):
     items = [(_template_shard, (i, ns, switches)) for i in range(ns)]
     per = 60 if quick else 2000
     items += [(_pattern_shard, (env.sub_seed(report.seed, "C07", i), per, switches)) for i in range(env.NPROC)]
+    from .. import hosts
+    others = hosts.available_other_hosts()
+    cases = []
+    for i, (t, w) in enumerate([(t, w) for t in TEMPLATES for w in ("module", "function", "class")]
+                               + [(t, "function") for t in TEMPLATES_IN_FUNC_ONLY]):
+        if excluded(t, switches):
+            continue
+        src = place(setup_for(t) + t, w)
+        try:
+            compile(src, "<t>", "exec")
+        except SyntaxError:
+            continue
+        cases.append((src, [env.ALL_CFGS[i % 8], env.ALL_CFGS[(i + 3) % 8]]))
+    for h in others:
+        items.append((hosts.host_shard, (h, cases, {}, "evaluation order/count differs")))
+    report.extra["other_hosts"] = others
     for part in env.pmap(_call, items):
         report.absorb(part)
     report.extra["templates"] = len(TEMPLATES) + len(TEMPLATES_IN_FUNC_ONLY)
